@@ -143,12 +143,13 @@ def build(c, root):
             for p, v in frames:
                 fh.write(ek.lammps_frame_text([1 + (i % 2) for i in range(n)], (p + lo).tolist(), v.tolist(), [(lo, lo + 30.0)] * 3, order=list(range(n))[::-1], trailing_id=True))
     elif eng_name == "cp2k":
-        eng = ek.make_cp2k(root, ["H", "O", "C", "H"][:n], pos.tolist(), temperature=300.0, cp2k=FAKE["cp2k"], subcycles=c["subcycles"], timestep=c["dt"], sleep=c["poll"])
+        eng = ek.make_cp2k(root, ["H", "O", "C", "H"][:n], pos.tolist(), temperature=300.0, cp2k=FAKE["cp2k"], subcycles=c["subcycles"], timestep=c["dt"], sleep=c["poll"], cell_form=c.get("cell_form", "ABC"))
         from infretis.classes.engines.engineparts import write_xyz_trajectory
 
         src = os.path.join(srcdir, "start.xyz")
         for j, (p, v) in enumerate(frames):
-            write_xyz_trajectory(src, p, v, ["H", "O", "C", "H"][:n], np.array([30.0, 30.0, 30.0]), step=j, append=True)
+            # (a start configuration may carry no box, like the xyz files CP2K itself writes: the cell of the input applies then)
+            write_xyz_trajectory(src, p, v, ["H", "O", "C", "H"][:n], None if c.get("src_nobox") else np.array([30.0, 30.0, 30.0]), step=j, append=True)
     elif eng_name == "gromacs":
         eng = ek.make_gromacs(root, [1.0, 16.0, 12.0, 1.0][:n], (pos / 10).tolist(), temperature=300.0, gmx=FAKE["gmx"], subcycles=c["subcycles"], timestep=c["dt"])
         eng.mdrun = FAKE["gmx"] + " mdrun -s {} -deffnm {} -c {}"
@@ -253,6 +254,9 @@ def cases(draw, engines):
         c["beh"]["exit_code"] = 3
     if c["beh"]["die_at"] is not None and draw(st.sampled_from([False, False, True])):
         c["beh"]["die_signal"] = draw(st.sampled_from([9, 6, 11]))  # killed / abort / segfault instead of an exit code
+    if eng == "cp2k":
+        c["cell_form"] = draw(st.sampled_from(["ABC", "vectors", "angles"]))  # three spellings of the same 30 A cell
+        c["src_nobox"] = draw(st.booleans())
     if eng in EXT and draw(st.sampled_from([False, False, True])):
         # the command is a wrapper / launcher: the worker is its child and lingers after its last frame
         c["beh"]["launcher"] = True
@@ -360,6 +364,10 @@ def body(rec, c):
                 fr = frame_of(pp.config)
             except Exception as exc:  # noqa: BLE001
                 raise Violation(f"{eng_name}:referenced-frame-unreadable", f"frame {k} {pp.config}: {exc!r} {info}")
+            if eng_name == "cp2k":
+                # the cell is fixed and comes from the CP2K input (ABC 30 30 30 here): the engine writes it into every frame it converts
+                rec.check(fr["box"] is not None and np.allclose(np.asarray(fr["box"], float)[:3], [30.0, 30.0, 30.0], rtol=0, atol=1e-6), "cp2k:frame-box-differs-from-the-cell-of-the-input",
+                          f"frame {k}: box {None if fr['box'] is None else np.asarray(fr['box']).tolist()} {info}")
             want = ref_order(c["op"], fr, pp.vel_rev)
             rec.check(abs(pp.order[0] - want) <= tolo * max(1.0, abs(want)), f"{eng_name}:stored-order-differs-from-frame:{c['op']}:{'reverse' if c['reverse'] else 'forward'}",
                       f"frame {k}: stored {pp.order[0]!r}, recomputed from its configuration {want!r} (box {None if fr['box'] is None else fr['box'].tolist()}) orders={orders} {info}")
